@@ -73,6 +73,8 @@ type Machine struct {
 	ctx context.Context
 	// ctxParent is the context the machine was created with.
 	ctxParent context.Context
+	// ctxParentStop releases the watch of ctxParent.
+	ctxParentStop func() bool
 	// parentId is the id of the parent machine (if any).
 	parentId string
 	// disposing disabled auto schema
@@ -336,6 +338,12 @@ func New(ctx context.Context, schema Schema, opts *Opts) *Machine {
 	m.ctxParent = ctx
 	// graceful internal context
 	m.ctx, m.cancel = context.WithCancel(context.Background())
+	// without handlers there's no handler loop to notice the expired context
+	m.ctxParentStop = context.AfterFunc(ctx, func() {
+		if !m.handlerLoopRunning.Load() {
+			m.Dispose()
+		}
+	})
 
 	if parent != nil {
 		m.parentId = parent.Id()
@@ -517,6 +525,9 @@ func (m *Machine) doDispose(force bool) {
 	// m.disposeHandlers = nil
 
 	// the end
+	if m.ctxParentStop != nil {
+		m.ctxParentStop()
+	}
 	m.cancel()
 	// fmt.Println("DISPOSED " + m.Id())
 	closeSafe(m.whenDisposed)
